@@ -1,4 +1,5 @@
 import Cdecao.Proofs.NodeEng3
+import Cdecao.Model.Cli
 /-! # C10 (solver half) — valid instances never reach a panic site of the node solver -/
 namespace Props
 open N2
@@ -17,5 +18,18 @@ theorem C10_tree (I : Inst) (R : RoomFns) (hI : InstOK I)
     letI := solverOf I R
     ∀ f : Node, Eng3.Desc f rootNode → Eng3.Solver.res f ≠ (Eng3.Res.panic : Eng3.Res (List (Option Nat))) :=
   tree_no_panic I R hI hmm
+
+end Props
+
+namespace Props
+open CLI
+
+/-- CLI half (decision logic of main.rs after the solver returned): without a solution the exit
+    status is 1 and no file is written; with a solution and no output fault it is 0 and the file,
+    if requested, is complete -/
+theorem C10_cli (found print : Bool) (f : OutFaults) (hc : f.created = true) (hw : f.written = true) :
+    (found = false → (outputStage found print f).exit = 1 ∧ (outputStage found print f).fileComplete = false) ∧
+    (found = true → (outputStage found print f).exit = 0 ∧ (outputStage found print f).fileComplete = f.requested) := by
+  cases found <;> cases hr : f.requested <;> simp [outputStage, hc, hw, hr]
 
 end Props
